@@ -10,5 +10,9 @@ import DSymVerif.Props.C12
 #print axioms DSymVerif.C12.extract_complete
 #print axioms DSymVerif.C12.extract_valid
 #print axioms DSymVerif.C12.derived_table_relators_close
+#print axioms DSymVerif.C12.renumbered_compare_spec
+#print axioms DSymVerif.C12.pruning_sound
+#print axioms DSymVerif.C12.search_states_standard
+#print axioms DSymVerif.C12.coset_tables_irredundant
 #print axioms DSymVerif.C12.rebase_min_invariant
 #print axioms DSymVerif.C12.renumber_iso
